@@ -15,13 +15,14 @@ TECHNIQUE = "runtime monitoring: differential observer across the real tokenise/
 RULE = ("seeded valid pieces (1-4 single-channel tracks, pitches in range, durations among the note values, signatures "
         "expressible in eighths on bar lines, every rest segment a sum of step sizes) x configurations (16 flag combinations x "
         "velocity bins x tracks x pitch ranges x note-value sets x step-size sets). Stratum A: whole-bar padded pieces whose rest "
-        "segments decompose largest-step-first, regular bin counts — must be entirely clean. Stratum B: ragged pieces and "
-        "segments needing a non-greedy decomposition; stratum V: irregular bin counts (known findings). Non-trivial: >= 2 notes "
+        "segments decompose largest-step-first, regular bin counts; stratum B: ragged pieces and segments that only a "
+        "non-largest-first decomposition bridges (9 = 6 + 3) — both must be entirely clean. Stratum V: irregular bin counts "
+        "(known findings). Non-trivial: >= 2 notes "
         "and a rest crossing a bar line or a signature change.")
 PLAN = {"quick": {"cases": 2400, "jobs": 4, "timeout": 600},
         "thorough": {"cases": 2000000, "jobs": 16, "timeout": 3000, "budget_s": 360}}
 FLOORS = {"quick": {"c01.roundtrips_compared": 1500, "#c01.flags.": 16, "c01.notes_compared": 8000, "c01.bar_lines_compared": 4000,
-                    "c01.signature_change": 500},
+                    "c01.signature_change": 500, "c01.piece_needing_non_greedy_rests": 50},
           "thorough": {"c01.roundtrips_compared": 80000, "#c01.flags.": 16}}
 
 
@@ -47,10 +48,6 @@ def classify(f, case):
                      "encode_keyerror", "velocity_above_top_bin"):
             return "irregular_velocity_bin_count"
         return None
-    if st == "B":
-        if claim == "tokenise_raises.TokenisationException" and "Invalid remaining rest value" in str(w.get("msg", "")) \
-                and not info.get("greedy_safe", True):
-            return "greedy_rest_decomposition"
     return None
 
 
@@ -69,6 +66,8 @@ def run(case, ctx):
         fails.append(fail("vocabulary_size_mismatch", (tok.dictionary_size, len(tok.dictionary))))
     seqs = [gen.build_seq(t) for t in piece["tracks"]]
     LOG.n("c01.flags." + "".join("1" if x else "0" for x in cfg["flags"]))
+    if not (piece.get("info") or {}).get("greedy_safe", True):
+        LOG.n("c01.piece_needing_non_greedy_rests")
     shape = (st, "".join("1" if x else "0" for x in cfg["flags"]), cfg["tracks"], cfg["bins"], len(piece["ts"]))
     src_ts = [(t, (n, d)) for (t, n, d) in piece["ts"]]
     f2, res = compare_roundtrip(tok, seqs, src_ts, info=piece.get("info"))
